@@ -1,5 +1,5 @@
 (* C07 — months_since / years_since count whole calendar months and years. *)
-From Astro Require Import Base CalSpec DateModel DateProofs MonthProofs.
+From Astro Require Import Base CalSpec DateModel DateProofs MonthProofs MonthYears.
 
 (* values are (day number, nanoseconds of the day); dn_le / dn_lt order them lexicographically.
    For a >= b with b's day of month <= 28, n = a.months_since(b) satisfies b + n months <= a < b + (n+1) months *)
@@ -20,6 +20,17 @@ Theorem C07_mono : forall d1 n1 d1' n1' d2 n2, dn_le (d1, n1) (d1', n1') ->
   months_between d1 n1 d2 n2 <= months_between d1' n1' d2 n2.
 Proof. exact months_mono. Qed.
 
+(* the same two laws for years_since, and what "whole years" means: 12 y <= months < 12 (y + 1) *)
+Theorem C07_years_antisym : forall d1 n1 d2 n2, years_between d1 n1 d2 n2 = - years_between d2 n2 d1 n1.
+Proof. exact years_antisym. Qed.
+Theorem C07_years_mono : forall d1 n1 d1' n1' d2 n2, dn_le (d1, n1) (d1', n1') ->
+  years_between d1 n1 d2 n2 <= years_between d1' n1' d2 n2.
+Proof. exact years_mono. Qed.
+Theorem C07_years_bracket : forall d1 n1 d2 n2, 0 <= months_between d1 n1 d2 n2 ->
+  let y := years_between d1 n1 d2 n2 in
+  0 <= y /\ 12 * y <= months_between d1 n1 d2 n2 < 12 * (y + 1).
+Proof. exact years_bracket. Qed.
+
 Example C07_nonvacuous : months_between 738214 0 738185 0 = 1 /\ months_between 738213 0 738185 0 = 0 /\
   months_between 0 0 (-1) 1 = 0 /\ years_between 737849 0 737484 0 = 1.
 Proof. repeat split; reflexivity. Qed.
@@ -29,3 +40,6 @@ Print Assumptions C07_unique.
 Print Assumptions C07_years.
 Print Assumptions C07_antisym.
 Print Assumptions C07_mono.
+Print Assumptions C07_years_antisym.
+Print Assumptions C07_years_mono.
+Print Assumptions C07_years_bracket.
